@@ -8,3 +8,4 @@ TRUSTED = TRUSTED_CORE + [STORAGE_ASSUMED, QUERY_ASSUMED, TIME_ASSUMED, "assumed
                           "NOT under contract in this round (bounded stand-in only): TinyFlux.select, Measurement forwarding methods, termination of the recursion in _search_helper"]
 ASSUMPTIONS = [A_ALIAS, "A-gen: generator arguments are consumed without observable interleaving",
                "measurement filter '' behaves like None in the code; contracts follow the code there (recorded under C10 as KF-19)"]
+FUNCTIONS = FUNCTIONS + MEM_REFINEMENT  # MemoryStorage refines the abstract Storage contract
